@@ -154,3 +154,8 @@ def run(ctx):
     rewind = [n for n in arm if n.ast is not None and any(isinstance(c, ast.Call) and isinstance(c.func, ast.Attribute) and c.func.attr == "seek" and [norm(x) for x in c.args] == ["0"] for c in ast.walk(n.ast))]
     ok = len(rewind) == 1 and len(rd) == 1 and cfg.dominates(rewind[0], rd[0])
     ctx.check("C07.R5", "append arm: rewind to 0 before the existing header is read", ok, wi.where(t.ast), "Writer.__init__: append arm rewind", "the existing header must be read from offset 0")
+
+    # ---- shared ----
+    ctx.borrow("C04", {"C04.R2": "C07.R6", "C04.R3": "C07.R7"}, "every history starts with the header of the new-file path and proceeds through the writer typestate: a wrong header or dump sequence makes the written history unreadable")
+
+
